@@ -47,6 +47,13 @@ func (g *PackageLoader) GetMatching(cwd, fullMethod string, opts *method.ParseOp
 	}
 
 	// this is regexp, scan thru the package methods to find funcs that match the pattern
+	// we want full matches only: e.g. CopyAbc.* won't match OtherCopyAbc. The
+	// pattern is anchored, a leftmost match of an alternative (Conv|ConvX)
+	// says nothing about the other alternatives.
+	full, err := regexp.Compile("^(?:" + name + ")$")
+	if err != nil {
+		return nil, fmt.Errorf("could not parse name as regexp %q: %s", name, err)
+	}
 	var matches []*method.Definition
 
 	pkg, err := g.getPkg(pkgName)
@@ -56,12 +63,7 @@ func (g *PackageLoader) GetMatching(cwd, fullMethod string, opts *method.ParseOp
 
 	scope := pkg.Types.Scope()
 	for _, name := range scope.Names() {
-		loc := pattern.FindStringIndex(name)
-		if len(loc) != 2 {
-			continue
-		}
-		if loc[0] != 0 || loc[1] != len(name) {
-			// we want full match only: e.g. CopyAbc.* won't match OtherCopyAbc
+		if !full.MatchString(name) {
 			continue
 		}
 
